@@ -434,10 +434,13 @@ def _keygen(func, ignored, *args, **kwds):
         return user_args, kwds.copy()
     # a keyword named like a positional-only parameter (f(1, x=2) for
     # def f(x, /, **kwds)) is one of the varkwds, and not that parameter
-    call = func if hasattr(func, '__code__') else getattr(func, '__call__', None)
+    call, fixed = func, 0
+    if not hasattr(call, '__code__') and hasattr(call, 'func'): # a partial
+        call, fixed = call.func, len(call.args)
+    if not hasattr(call, '__code__'): call = getattr(call, '__call__', None)
     posonly = getattr(getattr(call, '__code__', None), 'co_posonlyargcount', 0)
     if posonly and inspect.ismethod(call): posonly -= 1 # 'self' is not named
-    posonly = explicitly_named[:posonly]
+    posonly = explicitly_named[:max(posonly - fixed, 0)]
     if posonly:
         kwds = dict(('/'+k if k in posonly else k, v) for (k,v) in kwds.items())
     # mix-in the function's defaults to the user provided kwds
